@@ -21,18 +21,45 @@ Qed.
 Lemma check_rule_nil : forall r, check_rule r = [] -> rule_holds r.
 Proof.
   intros r H. unfold check_rule in H. unfold rule_holds.
-  destruct (root_stm co_all (r_root r)) as [s|] eqn:Es; [|discriminate H].
-  destruct (label_id co_labels (r_first r)) as [a|] eqn:Ea; [|discriminate H].
-  destruct (label_id co_labels (r_second r)) as [b|] eqn:Eb; [|discriminate H].
-  apply app_eq_nil in H as [H1 H]. apply app_eq_nil in H as [H2 H]. apply app_eq_nil in H as [H3 H4].
-  exists s, a, b. repeat split; try reflexivity.
-  - destruct (mentions a s); [reflexivity | discriminate H2].
-  - destruct (mentions b s); [reflexivity | discriminate H3].
-  - assert (Hab : a <> b).
-    { intro E. subst b. rewrite N.eqb_refl in H1. discriminate H1. }
-    assert (Hc : oanalyse (before_step a b) co_fuel s = []).
-    { destruct (oanalyse (before_step a b) co_fuel s); [reflexivity | discriminate H4]. }
-    exact (before_checked co_fuel a b s Hab Hc).
+  destruct (r_kind r) eqn:Ek.
+  - (* RBefore *)
+    destruct (root_stm co_all (r_root r)) as [s|] eqn:Es; [|discriminate H].
+    destruct (label_id co_labels (r_first r)) as [a|] eqn:Ea; [|discriminate H].
+    destruct (label_id co_labels (r_second r)) as [b|] eqn:Eb; [|discriminate H].
+    apply app_eq_nil in H as [H1 H]. apply app_eq_nil in H as [H2 H]. apply app_eq_nil in H as [H3 H4].
+    exists s, a, b. repeat split; try reflexivity.
+    + destruct (mentions a s); [reflexivity | discriminate H2].
+    + destruct (mentions b s); [reflexivity | discriminate H3].
+    + assert (Hab : a <> b).
+      { intro E. subst b. rewrite N.eqb_refl in H1. discriminate H1. }
+      unfold rule_step in H4.
+      assert (Hc : oanalyse (before_step a b) co_fuel s = []).
+      { destruct (oanalyse (before_step a b) co_fuel s); [reflexivity | discriminate H4]. }
+      exact (before_checked co_fuel a b s Hab Hc).
+  - (* RGuard *)
+    destruct (root_stm co_all (r_root r)) as [s|] eqn:Es; [|discriminate H].
+    destruct (label_id co_labels (r_first r)) as [a|] eqn:Ea; [|discriminate H].
+    destruct (label_id co_labels (r_second r)) as [b|] eqn:Eb; [|discriminate H].
+    apply app_eq_nil in H as [H1 H]. apply app_eq_nil in H as [H2 H]. apply app_eq_nil in H as [H3 H4].
+    exists s, a, b. repeat split; try reflexivity.
+    + destruct (mentions a s); [reflexivity | discriminate H2].
+    + destruct (mentions b s); [reflexivity | discriminate H3].
+    + assert (Hab : a <> b).
+      { intro E. subst b. rewrite N.eqb_refl in H1. discriminate H1. }
+      unfold rule_step in H4.
+      destruct iter_label as [it|]; [|discriminate H4].
+      destruct (N.eqb a it || N.eqb b it) eqn:Eit; [discriminate H4|].
+      apply orb_false_iff in Eit as [E1 E2]. apply N.eqb_neq in E1, E2.
+      assert (Hc : oanalyse (guard_step a b it) co_fuel s = []).
+      { destruct (oanalyse (guard_step a b it) co_fuel s); [reflexivity | discriminate H4]. }
+      exists it. split; [reflexivity|].
+      exact (guard_checked co_fuel a b it s Hab E1 E2 Hc).
+  - (* RNever *)
+    destruct (root_stm co_all (r_root r)) as [s|] eqn:Es; [|discriminate H].
+    destruct (label_id co_labels (r_second r)) as [b|] eqn:Eb; [|discriminate H].
+    destruct (mentions b s) eqn:Em; [discriminate H|].
+    exists s, b. repeat split; try reflexivity.
+    exact (never_checked b s Em).
 Qed.
 
 Theorem co_rules_hold : forall r, In r co_rules -> rule_holds r.
@@ -49,23 +76,23 @@ Proof.
 Qed.
 Print Assumptions co_rules_hold.
 
-(* the rules by property (what props/C07.v, C10.v, C11.v cite) *)
-Definition rules_of (prefix : string) : list rule :=
-  filter (fun r => String.prefix prefix (r_id r)) co_rules.
-
-Lemma rules_of_in : forall p r, In r (rules_of p) -> In r co_rules.
-Proof. intros p r H. unfold rules_of in H. apply filter_In in H. exact (proj1 H). Qed.
-
-Definition c07_rules : list rule := rules_of "C07.".
-Definition c10_rules : list rule := rules_of "C10.".
-Definition c11_rules : list rule := rules_of "C11.".
+(* the rules by property (what props/C07.v, C10.v, C11.v, C13.v, C19.v cite) *)
+Lemma in_co_rules : forall r, In r c07_rules \/ In r c10_rules \/ In r c11_rules \/ In r c13_rules \/ In r c19_rules -> In r co_rules.
+Proof.
+  intros r H. unfold co_rules. repeat rewrite in_app_iff. tauto.
+Qed.
 Theorem co_C07_rules_hold : forall r, In r c07_rules -> rule_holds r.
-Proof. intros r H. exact (co_rules_hold r (rules_of_in _ r H)). Qed.
+Proof. intros r H. apply co_rules_hold, in_co_rules. tauto. Qed.
 Theorem co_C10_rules_hold : forall r, In r c10_rules -> rule_holds r.
-Proof. intros r H. exact (co_rules_hold r (rules_of_in _ r H)). Qed.
+Proof. intros r H. apply co_rules_hold, in_co_rules. tauto. Qed.
 Theorem co_C11_rules_hold : forall r, In r c11_rules -> rule_holds r.
-Proof. intros r H. exact (co_rules_hold r (rules_of_in _ r H)). Qed.
+Proof. intros r H. apply co_rules_hold, in_co_rules. tauto. Qed.
+Theorem co_C13_rules_hold : forall r, In r c13_rules -> rule_holds r.
+Proof. intros r H. apply co_rules_hold, in_co_rules. tauto. Qed.
+Theorem co_C19_rules_hold : forall r, In r c19_rules -> rule_holds r.
+Proof. intros r H. apply co_rules_hold, in_co_rules. tauto. Qed.
 
 (* non-vacuity: each property has rules *)
-Example rules_counts : List.length c07_rules = 5%nat /\ List.length c10_rules = 3%nat /\ List.length c11_rules = 1%nat.
+Example rules_counts : List.length c07_rules = 5%nat /\ List.length c10_rules = 4%nat /\ List.length c11_rules = 1%nat
+  /\ List.length c13_rules = 3%nat /\ List.length c19_rules = 9%nat.
 Proof. vm_compute. repeat split. Qed.
